@@ -364,6 +364,10 @@ func (p *gpkg) typeOf(e ast.Expr) *gtype {
 			return &gtype{k: gErr}
 		case "int":
 			return &gtype{k: gInt}
+		case "uint64":
+			if p.permMode { // slpgperm.go: plookup's ProofLookupVector.size; an exact Int in [0, 2^64) with the u64 operations
+				return &gtype{k: gInt, name: "uint64"}
+			}
 		case "bool":
 			return &gtype{k: gBool}
 		case "byte":
